@@ -87,6 +87,7 @@ type Exec struct {
 	garbage [][]byte
 	tx      uint64 // transcript hash: every observable result of the run
 	stepLog bool
+	inRace  bool
 }
 
 func (e *Exec) note(xs ...uint64) {
@@ -288,6 +289,10 @@ func (e *Exec) Run() (v *Violation) {
 	switch e.tr.Mode {
 	case "node":
 		return e.runNode()
+	case "heap":
+		return e.runHeap()
+	case "race":
+		return e.runRace()
 	}
 	// every run starts from an empty node pool, whatever ran before in this process
 	runtime.GC()
@@ -303,6 +308,15 @@ func (e *Exec) Run() (v *Violation) {
 				continue
 			}
 			e.envEvent(s.Op)
+			if s.Op == "gc2" && e.or&oVal != 0 {
+				// C18: after the collector ran (and clobbered what it freed), everything stored must read back intact
+				for ti, ts := range e.trees {
+					if v := e.fullContentCheck(i, ti, ts, "wrong-result", "C18-after-collection", "after a forced collection", true); v != nil {
+						return v
+					}
+				}
+				e.st.Probes["readback_after_collection"]++
+			}
 			continue
 		}
 		if s.T >= len(e.trees) {
@@ -467,10 +481,12 @@ func (e *Exec) treeStep(i int, s *Step) (*Violation, bool) {
 		fmt.Fprintf(os.Stderr, "STEP %d\n", i)
 	}
 	api := ts.api
-	api.Buf2(s.Lay)
-	if b := api.Buf(); b != nil {
-		b.pad = s.Pad
-		b.pend = b.pend[:0]
+	if !(ts.cfg.Shared && e.inRace) {
+		api.Buf2(s.Lay)
+		if b := api.Buf(); b != nil {
+			b.pad = s.Pad
+			b.pend = b.pend[:0]
+		}
 	}
 	own := opOracle(s.Op)
 
@@ -540,7 +556,7 @@ func (e *Exec) treeStep(i int, s *Step) (*Violation, bool) {
 				return e.viol("caller-memory", "C13-no-write", i, "tree %d (%s): %s: %v", s.T, ts.cfg.Key, s.Op, err), false
 			}
 		}
-	} else if b := api.Buf(); b != nil {
+	} else if b := api.Buf(); b != nil && !(ts.cfg.Shared && e.inRace) {
 		b.pend = b.pend[:0]
 	}
 
